@@ -8,6 +8,10 @@ CHECKS = {
    text="TLC explores every sequence of environment answers (convergence test, comparison of objective values, reduction-ratio class, residual comparison) of the trust-region state machine in TrustRegion.tla and proves Descent on accepted iterates, ReturnsLast and HonestFlag for the mechanism as coded (and exhibits the counterexample to NoUphillConvergence, finding F1). Every distinct ratio-class sequence on TLC's abstract state graph is replayed through a value-oracle proxy into the real trust_region_minimize under setting vectors that force each exit path; genuine solves of a seeded smooth family (convex, indefinite, singular, badly scaled, wiggly; exact/stale/identity preconditioner; incremental mode) are recorded through the public callback and a recording proxy; all traces are judged clause by clause by TrustRegionTrace.tla inside TLC. Right level: the guarantees are history properties of an iterative state machine driven by an environment.",
    note="Trusted: dense sksparse shim; alpha in checks/trsolve.py (objective comparison exact on reported iterates, 64 eps allowance only on the convergence-exit report, gradient recomputed with the objective's own jitted functions); scripted replays check only clauses valid for arbitrary environments; model change assumed non-zero for non-zero steps (positive-model re-signing branch is not reachable with consistent derivatives and is covered at design level only). Known finding F1 (convergence exit bypasses acceptance) is reported as KNOWN-FINDING.",
    tech="TLA+ mechanism+contract spec (TrustRegion.tla) + TLC exhaustive; spec->code replay via scripted value oracle; code->spec trace validation in TLC"),
+ "C04": dict(cat="model_checking", ref="DESIGN.md §3 C04",
+   text="AugLag.tla models the outer iteration of augmented_lagrange_solve as coded (callback, optional Newton multiplier update with a 10-trial line search that may drive multipliers negative, sub-problem solve, first-order update with max(.,0), penalty growth only on poor progress after a successful sub-solve, termination test, raise after max iterations); TLC explores every environment history and proves multipliers non-negative at every callback, penalties monotone, normal return only through the termination test (and that Newton-only mode never returns). FischerBurmeister.tla checks on an integer lattice that FB=0 iff complementarity. Sub-solver scripts (quality x success) from TLC's behaviours are replayed through the real sub_problem_solver parameter on real ConstrainedObjectives; genuine solves (active/inactive/weakly active/redundant/nonlinear constraints, infeasible starts, random initial multipliers and penalties, first/second-order updates, penalty scalings) and the bound-constrained front end are recorded via the public callback; AugLagTrace.tla judges every snapshot and return.",
+   note="Trusted: dense sksparse shim; alpha in checks/c04.py: KKT flags are the literal consequences of the termination test ||[grad_x L_A; FB(c,lam,k0)]||<tol (c>=-tol/k0, lam>=0 exactly, min(k0 c,lam)<=2tol, ||grad f-J^T lam||<=tol(1+2 sum||grad c_j||max(1,kappa_j/k0_j))) recomputed from the harness's own f and c; convex agreement against active-set enumeration (linear constraints).",
+   tech="TLA+ specs (AugLag.tla, FischerBurmeister.tla) + TLC exhaustive; scripted sub-solver replay into the real AL loop; trace validation in TLC"),
  "C05": dict(cat="model_checking", ref="DESIGN.md §3 C05",
    text="TrustRegion.tla with Bounded=TRUE (same convergence-first/ratio/accept skeleton, one trial per outer iteration) checked exhaustively by TLC for Feasible, Descent, ReturnsLast, HonestFlag; BoxProjection.tla is an exact lattice model of the box projection (closest point, idempotent, in box, infinite and degenerate bounds) and of the project_onto_tr contract. TLC's ratio-class sequences are replayed through the value-oracle proxy into the real bound_constrained_trust_region_minimize on random boxes (finite, one-sided, degenerate; starts on faces and vertices); every lattice instance is replayed, scaled over 13 decades, into the real project/project_onto_tr with TLC as exact oracle; genuine solves (monotone and non-monotone SPG, iteration caps, radii) incl. convex quadratics compared with active-set enumeration; all traces judged by TrustRegionTrace.tla / BoxProjectionTrace.tla.",
    note="Trusted: dense sksparse shim; alpha in checks/trsolve.py and checks/c05.py (box membership exact; ball membership of project_onto_tr within 1e-9 relative = brentq xtol; optimality measure recomputed as ||P(x-g)-x||); runs where find_generalized_cauchy_point raises RuntimeError are outside the contract and dropped (counted in evidence). Known finding F2 reported as KNOWN-FINDING.",
